@@ -1,7 +1,8 @@
 import Driver.Run
 import Driver.Fam.Search
 import Driver.Fam.SearchBytes
+import Driver.Fam.SearchFloat
 open Driver
 /-- families of area "search" -/
 def main (args : List String) : IO UInt32 := run [Fam.search, Fam.secretscan, Fam.cellfmt, Fam.searchre, Fam.searchmut, Fam.secretbig,
-  Fam.searchbytes, Fam.secretbytes, Fam.cellfmtbytes, Fam.searchuni, Fam.secretedge] args
+  Fam.searchbytes, Fam.secretbytes, Fam.cellfmtbytes, Fam.searchuni, Fam.secretedge, Fam.floattext] args
